@@ -315,6 +315,11 @@ pub fn probes() -> Vec<ProbeSrc> {
         "pub trait Val {\n    fn v(&self) -> i32;\n}\nimpl Val for i32 {\n    fn v(&self) -> i32 {\n        *self\n    }\n}\npub fn probe() -> i32 {\n    let r: Reference<dyn Val> = { let mut x = 5i32; to_dyn!(Val, reference::ReferenceUnsafe::Ptr(&mut x as *mut i32)) };\n    let out = r.borrow().v();\n    out\n}\n",
         Some("pub trait Val {\n    fn v(&self) -> i32;\n}\nimpl Val for i32 {\n    fn v(&self) -> i32 {\n        *self\n    }\n}\npub fn probe() -> i32 {\n    let r: Reference<dyn Val> = to_dyn!(Val, rc_ref_cell_reference(5i32));\n    let out = r.borrow().v();\n    out\n}\n"),
     ));
+    // the static-making macros take an initialiser, never the name of something that already exists (a local, say)
+    v.push(simple("static_reference/names-a-local", "C16/lifetime/static_reference/accepts-a-local-name", "pub fn probe() -> i32 {\n    let r = { let mut x = 5i32; static_reference!(x) };\n    let out = *r.borrow();\n    out\n}\n", Some("pub fn probe() -> i32 {\n    let r = static_reference!(i32, 5);\n    let out = *r.borrow();\n    out\n}\n")));
+    // no safe conversion from a plain reference into a Borrow / BorrowMut with a lifetime of the caller's choosing
+    v.push(simple("Borrow/from-plain-reference", "C16/lifetime/Borrow/from-reference-unbound", "pub fn probe() -> reference::Borrow<'static, i32> {\n    let l = 5i32;\n    reference::Borrow::from(&l)\n}\n", None));
+    v.push(simple("BorrowMut/from-plain-reference", "C16/lifetime/BorrowMut/from-reference-unbound", "pub fn probe() -> reference::BorrowMut<'static, i32> {\n    let mut l = 5i32;\n    reference::BorrowMut::from(&mut l)\n}\n", None));
     // an unsafe operation written inside a macro argument must still need the caller's own `unsafe`
     v.push(simple(
         "to_dyn/unsafe-call-in-argument",
@@ -336,6 +341,8 @@ pub fn probes() -> Vec<ProbeSrc> {
                 "to_dyn/unsafe-call-in-argument" | "static_reference/unsafe-call-in-initialiser" | "static_rw_lock_reference/unsafe-call-in-initialiser" | "static_mutex_reference/unsafe-call-in-initialiser" | "Reference::from_ptr/outside-unsafe" | "Reference::from_ptr_rw_lock/outside-unsafe" | "Reference::from_ptr_mutex/outside-unsafe" | "ReferenceUnsafe::Ptr/borrow-outside-unsafe" => &["E0133"],
                 "ReferenceUnsafe::Ptr/into-Reference" => &["E0277"],
                 "static_reference/non-static-initialiser" => &["E0435"],
+                "static_reference/names-a-local" => &["unexpected end of macro invocation", "no rules expected", "E0435", "E0308"],
+                "Borrow/from-plain-reference" | "BorrowMut/from-plain-reference" => &["E0277", "E0308", "E0515", "E0597"],
                 // any rejection by the type system counts (mismatched types, unsatisfied trait bound, no such method)
                 "to_dyn/duck-typed-into_inner" | "to_dyn/bare-ReferenceUnsafe-argument" => &["E0308", "E0277", "E0599"],
                 _ => BORROWCK,
